@@ -275,6 +275,21 @@ func Universe(name string, size string, seed int64) []RawKey {
 		}
 		return u
 
+	case "textrep":
+		// collation: pairs of strings sharing runs of one letter (sort-key paths of every length from 13 to 30+ bytes) and,
+		// as absent keys, shorter runs of that letter: sort keys that agree with the inline part of a long path and END
+		// at, before or after the depth the optimistic skip arrives at
+		var u []RawKey
+		for n := 6; n <= 15; n++ {
+			run := strings.Repeat("a", n)
+			u = append(u, rk(run+"b"), rk(run+"c"))
+		}
+		for n := 1; n <= 16; n++ {
+			u = append(u, rp(strings.Repeat("a", n)))
+		}
+		u = append(u, rp("b"), rp(""))
+		return u
+
 	case "textnfd":
 		// collation: stored keys that are NOT in composed normal form (combining accents, conjoining jamo, the Angstrom and
 		// Ohm signs); their composed spellings are absent keys. What the tree hands back must be the bytes that were inserted.
